@@ -92,6 +92,29 @@ def _shift(v, lo, bo):
             _shift(x, lo, bo)
 
 
+def _rename_local(v, a, b):
+    """replace local a by local b (whole places only change their base) in a JSON value, in place"""
+    if isinstance(v, list):
+        for x in v:
+            _rename_local(x, a, b)
+        return
+    if not isinstance(v, dict):
+        return
+    if 'l' in v and 'p' in v and isinstance(v['l'], int):
+        if v['l'] == a:
+            v['l'] = b
+        for e in v['p']:
+            if isinstance(e, dict) and e.get('idx') == a:
+                e['idx'] = b
+        return
+    if v.get('k') in ('dead', 'live') and isinstance(v.get('l'), int):
+        if v['l'] == a:
+            v['l'] = b
+        return
+    for x in v.values():
+        _rename_local(x, a, b)
+
+
 def inline_once(d, bb, callee):
     """splice callee dict into d at the call terminating block bb"""
     t = d['blocks'][bb]['t']
@@ -110,13 +133,22 @@ def inline_once(d, bb, callee):
         d['blocks'][bb]['st'].append({'k': 'assign', 'lhs': {'l': lo + 1 + i, 'p': []},
                                       'rv': {'k': 'use', 'op': a}, 'ln': ln, 'x': False})
     cleanup = d['blocks'][bb]['cleanup']
+    # the callee's return place IS the destination when that is a plain local: the sites that give the result its
+    # value stay separate definitions of the destination (with their own path conditions), exactly as if the code had
+    # been written in place
+    direct = not t['dest']['p'] and \
+        not any(a.get('pl', {}).get('l') == t['dest']['l'] for a in t['args'] if isinstance(a, dict))
     for blk in c['blocks']:
         _shift(blk, lo, bo)
+        if direct:
+            _rename_local(blk, lo, t['dest']['l'])
         if cleanup:
             blk['cleanup'] = True
         if blk['t']['k'] == 'return':
-            blk['st'].append({'k': 'assign', 'lhs': copy.deepcopy(t['dest']),
-                              'rv': {'k': 'use', 'op': {'k': 'move', 'pl': {'l': lo, 'p': []}}}, 'ln': ln, 'x': False})
+            if not direct:
+                blk['st'].append({'k': 'assign', 'lhs': copy.deepcopy(t['dest']),
+                                  'rv': {'k': 'use', 'op': {'k': 'move', 'pl': {'l': lo, 'p': []}}}, 'ln': ln,
+                                  'x': False})
             blk['t'] = {'k': 'goto', 'target': t['target']} if t['target'] is not None else {'k': 'unreachable'}
         elif blk['t']['k'] == 'resume' and isinstance(t.get('unwind'), int):
             blk['t'] = {'k': 'goto', 'target': t['unwind']}
@@ -140,6 +172,13 @@ def inline_new_helpers(facts, d, norm, depth=0, stack=()):
         guard += 1
         for bb, blk in enumerate(d['blocks']):
             t = blk['t']
+            if t['k'] == 'call' and t['f'].get('k') in ('move', 'copy'):
+                # call through a fn pointer whose value is a known fn item (after inlining: a helper parametrised by
+                # a function) -> direct call
+                r = _resolve_callable(d, t['f'])
+                if r is not None and r.get('k') == 'const' and r.get('c', {}).get('fn'):
+                    t['f'] = {'k': 'const', 'c': copy.deepcopy(r['c'])}
+                    d.setdefault('devirtualised', []).append(r['c']['fn'])
             if t['k'] != 'call' or t['f'].get('k') != 'const':
                 continue
             cst = t['f'].get('c', {})
@@ -289,6 +328,9 @@ def _resolve_callable(d, op, depth=0):
     if src is None:
         return None
     if src['k'] == 'use':
+        return _resolve_callable(d, src['op'], depth + 1)
+    if src['k'] == 'cast' and 'FnPointer' in src.get('ck', '') and isinstance(src.get('op'), dict):
+        # `f as fn(..) -> ..` / a fn item or closure handed over as a fn pointer
         return _resolve_callable(d, src['op'], depth + 1)
     if src['k'] == 'ref' and not [p for p in src['pl']['p'] if p != '*']:
         return _resolve_callable(d, {'k': 'copy', 'pl': {'l': src['pl']['l'], 'p': []}}, depth + 1)
